@@ -115,6 +115,37 @@ def directed(rng: random.Random, tier: str):
         hs.round([(1, hs.eof())], w, 1)
         hs.round([], w, 2)
         out.append(hs)
+    # a statistics report that cannot be delivered: ntypes distinct types were forwarded in one interval (a report of
+    # more than 64 entries is sent in pieces from inside the loop over the counters), the report falls due in a round
+    # that finds its subscriber not writable / failing on write, so notices and departures are published while the
+    # report is being produced
+    for ntypes in (1, 63, 64, 65, 70, 130):
+        for how in ("unwritable", "fault"):
+            for failed_sub, timing_sub in ((False, False), (True, False), (False, True)):
+                hs = C.History(loglevel=60, timing=True, tag="report-undeliverable")
+                for _ in range(3):
+                    hs.round([], [], 0, accept=True)
+                w = [1, 2, 3]
+                hs.round([(1, hs.connect_v1(src_mod=10)), (2, hs.connect_v1(src_mod=11)), (3, hs.connect_v1(src_mod=12))], w, 0)
+                hs.round([(1, hs.sub("sub", C.MT["MESSAGE_TRAFFIC"]))], w, 0)
+                if timing_sub:
+                    hs.round([(1, hs.sub("sub", C.MT["TIMING_MESSAGE"]))], w, 0)
+                if failed_sub:
+                    hs.round([(3, hs.sub("sub", C.MT["FAILED_MESSAGE"])), ], w, 0)
+                    hs.round([(3, hs.sub("sub", C.MT["CLIENT_CLOSED"])), ], w, 0)
+                hs.round([], [], 6)                                   # closes the interval the set-up belongs to
+                for t in range(1000, 1000 + ntypes):
+                    hs.round([(2, hs.publish(t, b"12345678", src_mod=11))], w, 6)
+                if how == "fault":
+                    hs.fault(1, 0)                                    # the write of the report itself fails
+                    hs.round([(2, hs.publish(1000, b"x", src_mod=11))], w, 12)
+                    hs.round([], [], 12, accept=True)
+                else:
+                    hs.round([], [], 12, accept=True)                 # a round that only accepts: nobody is writable
+                    hs.round([(2, hs.publish(1000, b"x", src_mod=11))], [2, 3, 4], 12)
+                hs.round([], [], 18, accept=True)
+                hs.round([(2, hs.publish(1001, b"after", src_mod=11))], [1, 2, 3, 4, 5], 19)
+                out.append(hs)
     return out
 
 
